@@ -385,6 +385,14 @@ func (cc *connectUnaryClientConn) validateResponse(response *http.Response) *Err
 	if compression != "" &&
 		compression != compressionIdentity &&
 		!cc.compressionPools.Contains(compression) {
+		if response.StatusCode != http.StatusOK {
+			// Whatever this body is, it isn't an error we can read: the HTTP
+			// status is all there is to go by.
+			return NewError(
+				connectHTTPToCode(response.StatusCode),
+				errors.New(response.Status),
+			)
+		}
 		return errorf(
 			CodeInternal,
 			"unknown encoding %q: accepted encodings are %v",
